@@ -247,69 +247,229 @@ Theorem applycal_dotted : forall streams inputs l, forallb has_dot l = true ->
 Proof. intros. rewrite applycal_is_spec. unfold spec_applycal. rewrite (normalise_dotted _ _ H). reflexivity. Qed.
 
 (* ------------------------------------------------------------------ stream discovery *)
-Lemma discover_from_l1_set : forall l l1 l2, l1 <> "" ->
-  fst (discover_from l l1 l2) = l1.
+(* the decisions the walk over sdp_archived_streams takes in the source (regenerated) are the documented ones *)
+Lemma discover_decisions :
+  (disc_cal_type, disc_image_type, disc_l1_default, disc_selfcal_suffix) =
+  ("sdp.cal", "sdp.continuum_image", "cal", "_selfcal") /\ disc_l1_guarded = true /\ disc_l2_guarded = true.
+Proof. repeat split; reflexivity. Qed.
+
+Lemma substreams_spec : forall a,
+  substreams_of a = map (fun t => as_name a ++ "_" ++ t ++ "_selfcal") (targets_of a).
+Proof. intro a. reflexivity. Qed.
+
+Lemma productive_targets : forall a, productive_imager a = true -> targets_of a <> [].
 Proof.
-  induction l as [|a t IH]; intros l1 l2 H; cbn [discover_from fst]; [reflexivity|].
-  apply String.eqb_neq in H. rewrite H. cbn [andb].
-  destruct (match l2 with [] => _ | _ => false end); apply IH; apply String.eqb_neq; exact H.
+  intros a H. unfold productive_imager in H. apply andb_true_iff in H. destruct H as [_ H]. unfold targets_of.
+  destruct (as_targets a) as [[|x t]|]; discriminate.
 Qed.
 
-(* the first archived stream of type sdp.cal is L1 (named streams), 'cal' when there is none *)
+Lemma unproductive_imager : forall a,
+  String.eqb (as_type a) "sdp.continuum_image" = true -> productive_imager a = false -> substreams_of a = [].
+Proof.
+  intros a Ht H. unfold productive_imager in H. rewrite Ht in H. cbn [andb] in H.
+  unfold substreams_of, targets_of. destruct (as_targets a) as [[|x t]|]; try discriminate; reflexivity.
+Qed.
+
+Lemma cal_not_imager : forall a, is_cal_stream a = true -> String.eqb (as_type a) "sdp.continuum_image" = false.
+Proof.
+  intros a H. unfold is_cal_stream in H. apply String.eqb_eq in H. rewrite H. reflexivity.
+Qed.
+
+Lemma spec_l2_cons : forall a t,
+  spec_l2 (a :: t) = if productive_imager a then substreams_of a else spec_l2 t.
+Proof. intros a t. unfold spec_l2. cbn [filter]. destruct (productive_imager a); reflexivity. Qed.
+
+Lemma nonimager_not_productive : forall a,
+  String.eqb (as_type a) "sdp.continuum_image" = false -> productive_imager a = false.
+Proof. intros a H. unfold productive_imager. rewrite H. reflexivity. Qed.
+
+(* taking an imager while no substream has been found yet = the documented choice, productive or not *)
+Lemma take_imager : forall a t, String.eqb (as_type a) "sdp.continuum_image" = true ->
+  match substreams_of a with [] => spec_l2 t | _ => substreams_of a end = spec_l2 (a :: t).
+Proof.
+  intros a t Ei. rewrite spec_l2_cons. destruct (productive_imager a) eqn:Ep.
+  - pose proof (productive_targets _ Ep) as Hne. unfold substreams_of.
+    destruct (targets_of a) as [|y ys]; [contradiction Hne; reflexivity|]. reflexivity.
+  - rewrite (unproductive_imager _ Ei Ep). reflexivity.
+Qed.
+
+(* THE WALK = THE DOCUMENTED CHOICE, from any intermediate state, for every list of archived streams *)
+Lemma discover_from_spec : forall l l1 l2, (forall a, In a l -> as_name a <> "") ->
+  discover_from l l1 l2 =
+  (if String.eqb l1 "" then match filter is_cal_stream l with a :: _ => as_name a | [] => "" end else l1,
+   match l2 with [] => spec_l2 l | _ => l2 end).
+Proof.
+  induction l as [|a t IH]; intros l1 l2 Hn.
+  - cbn [discover_from filter spec_l2]. destruct (String.eqb l1 "") eqn:E1.
+    + apply String.eqb_eq in E1. subst. destruct l2; reflexivity.
+    + destruct l2; reflexivity.
+  - assert (Ha : as_name a <> "") by (apply Hn; left; reflexivity).
+    assert (Ht : forall b, In b t -> as_name b <> "") by (intros b Hb; apply Hn; right; exact Hb).
+    cbn [discover_from]. unfold l1_unset, l2_unset.
+    change disc_l1_guarded with true. change disc_l2_guarded with true.
+    change disc_cal_type with "sdp.cal". change disc_image_type with "sdp.continuum_image".
+    cbn [filter]. fold (is_cal_stream a).
+    destruct (String.eqb l1 "") eqn:E1; cbn [andb].
+    + destruct (is_cal_stream a) eqn:Ec.
+      * rewrite (IH _ _ Ht). apply String.eqb_neq in Ha. rewrite Ha.
+        rewrite spec_l2_cons, (nonimager_not_productive _ (cal_not_imager _ Ec)). reflexivity.
+      * destruct l2 as [|x l2']; cbn [andb].
+        -- destruct (String.eqb (as_type a) "sdp.continuum_image") eqn:Ei.
+           ++ rewrite (IH _ _ Ht), E1. f_equal. apply take_imager. exact Ei.
+           ++ rewrite (IH _ _ Ht), E1. rewrite spec_l2_cons, (nonimager_not_productive _ Ei). reflexivity.
+        -- rewrite (IH _ _ Ht), E1. reflexivity.
+    + destruct l2 as [|x l2']; cbn [andb].
+      * destruct (String.eqb (as_type a) "sdp.continuum_image") eqn:Ei.
+        -- rewrite (IH _ _ Ht), E1. f_equal. apply take_imager. exact Ei.
+        -- rewrite (IH _ _ Ht), E1. rewrite spec_l2_cons, (nonimager_not_productive _ Ei). reflexivity.
+      * rewrite (IH _ _ Ht), E1. reflexivity.
+Qed.
+
+(* MODEL = SPEC for every list of archived streams: several cal streams, several imagers, imagers with empty or
+   absent targets, streams of other types, any order *)
+Theorem discover_is_spec : forall l, (forall a, In a l -> as_name a <> "") -> discover l = spec_discover l.
+Proof.
+  intros l Hn. unfold discover. rewrite (discover_from_spec l "" [] Hn). cbn [fst snd String.eqb].
+  unfold spec_discover, spec_l1. change disc_l1_default with "cal".
+  destruct (filter is_cal_stream l) as [|a t] eqn:Ef; [reflexivity|].
+  assert (Ha : as_name a <> "").
+  { apply Hn. assert (Hin : In a (filter is_cal_stream l)) by (rewrite Ef; left; reflexivity).
+    apply filter_In in Hin. exact (proj1 Hin). }
+  apply String.eqb_neq in Ha. rewrite Ha. reflexivity.
+Qed.
+
+(* consequences, in the form "the first ... wherever the others stand" *)
+Lemma filter_first : forall (f : astream -> bool) pre a post,
+  (forall b, In b pre -> f b = false) -> f a = true -> exists r, filter f (pre ++ a :: post) = a :: r.
+Proof.
+  intros f pre a post Hpre Ha. induction pre as [|b t IH].
+  - cbn [app filter]. rewrite Ha. eexists. reflexivity.
+  - cbn [app filter]. rewrite (Hpre b (or_introl eq_refl)). apply IH. intros c Hc. apply Hpre. right. exact Hc.
+Qed.
+
+Lemma filter_none : forall (f : astream -> bool) l, (forall b, In b l -> f b = false) -> filter f l = [].
+Proof.
+  intros f l H. induction l as [|b t IH]; [reflexivity|]. cbn [filter]. rewrite (H b (or_introl eq_refl)).
+  apply IH. intros c Hc. apply H. right. exact Hc.
+Qed.
+
+(* the first archived stream of type sdp.cal is L1, whatever stands before, between and after; 'cal' when none *)
 Theorem discover_l1_first : forall pre a post,
-  (forall b, In b pre -> as_type b <> "sdp.cal") -> as_type a = "sdp.cal" -> as_name a <> "" ->
+  (forall b, In b (pre ++ a :: post) -> as_name b <> "") ->
+  (forall b, In b pre -> as_type b <> "sdp.cal") -> as_type a = "sdp.cal" ->
   fst (discover (pre ++ a :: post)) = as_name a.
 Proof.
-  intros pre a post Hpre Ha Hn. unfold discover. cbn [fst].
-  assert (E : forall l2, exists l2', discover_from (pre ++ a :: post) "" l2 = discover_from post (as_name a) l2').
-  { induction pre as [|b t IH]; intro l2.
-    - cbn [app discover_from]. rewrite Ha, !String.eqb_refl. cbn [andb]. exists l2. reflexivity.
-    - cbn [app discover_from].
-      assert (Hb : String.eqb (as_type b) "sdp.cal" = false)
-        by (apply String.eqb_neq; apply Hpre; left; reflexivity).
-      rewrite Hb, andb_false_r.
-      destruct (match l2 with [] => _ | _ => false end);
-        apply IH; intros c Hc; apply Hpre; right; exact Hc. }
-  destruct (E []) as [l2' E']. rewrite E', (discover_from_l1_set _ _ _ Hn).
-  apply String.eqb_neq in Hn. rewrite Hn. reflexivity.
+  intros pre a post Hn Hpre Ha. rewrite (discover_is_spec _ Hn). cbn [spec_discover fst]. unfold spec_l1.
+  destruct (filter_first is_cal_stream pre a post) as [r E].
+  - intros b Hb. unfold is_cal_stream. apply String.eqb_neq. apply Hpre. exact Hb.
+  - unfold is_cal_stream. rewrite Ha. reflexivity.
+  - rewrite E. reflexivity.
 Qed.
 
-Theorem discover_l1_default : forall l, (forall b, In b l -> as_type b <> "sdp.cal") -> fst (discover l) = "cal".
+Theorem discover_l1_default : forall l, (forall b, In b l -> as_name b <> "") ->
+  (forall b, In b l -> as_type b <> "sdp.cal") -> fst (discover l) = "cal".
 Proof.
-  intros l H. unfold discover. cbn [fst].
-  assert (E : forall l2, fst (discover_from l "" l2) = "").
-  { induction l as [|b t IH]; intro l2; [reflexivity|]. cbn [discover_from].
-    assert (Hb : String.eqb (as_type b) "sdp.cal" = false) by (apply String.eqb_neq; apply H; left; reflexivity).
-    rewrite Hb, andb_false_r.
-    destruct (match l2 with [] => _ | _ => false end); apply IH; intros c Hc; apply H; right; exact Hc. }
-  rewrite E. reflexivity.
+  intros l Hn H. rewrite (discover_is_spec _ Hn). cbn [spec_discover fst]. unfold spec_l1.
+  rewrite filter_none; [reflexivity|]. intros b Hb. unfold is_cal_stream. apply String.eqb_neq. apply H. exact Hb.
 Qed.
 
-Lemma discover_from_l2_set : forall l l1 x l2, snd (discover_from l l1 (x :: l2)) = x :: l2.
+Lemma not_productive : forall b,
+  as_type b <> "sdp.continuum_image" \/ as_targets b = None \/ as_targets b = Some [] -> productive_imager b = false.
 Proof.
-  induction l as [|a t IH]; intros l1 x l2; cbn [discover_from snd]; [reflexivity|].
-  destruct (String.eqb l1 "" && String.eqb (as_type a) "sdp.cal"); apply IH.
+  intros b [H | [H | H]]; unfold productive_imager.
+  - apply String.eqb_neq in H. rewrite H. reflexivity.
+  - rewrite H. apply andb_false_r.
+  - rewrite H. apply andb_false_r.
 Qed.
 
-(* L2 = one <imager stream>_<target>_selfcal substream per target of the first imager stream that has targets *)
-Theorem discover_l2_first : forall pre a post,
-  (forall b, In b pre -> as_type b <> "sdp.continuum_image" \/ as_targets b = []) ->
-  as_type a = "sdp.continuum_image" -> as_targets a <> [] ->
-  snd (discover (pre ++ a :: post)) = map (selfcal_name (as_name a)) (as_targets a).
+(* L2 = one <imager>_<target>_selfcal substream per target (in order) of the first imager stream that HAS targets:
+   imagers before it whose `targets` is absent or empty are passed over, everything after it is ignored *)
+Theorem discover_l2_first : forall pre a post x tl,
+  (forall b, In b (pre ++ a :: post) -> as_name b <> "") ->
+  (forall b, In b pre -> as_type b <> "sdp.continuum_image" \/ as_targets b = None \/ as_targets b = Some []) ->
+  as_type a = "sdp.continuum_image" -> as_targets a = Some (x :: tl) ->
+  snd (discover (pre ++ a :: post)) = map (fun t => as_name a ++ "_" ++ t ++ "_selfcal") (x :: tl).
 Proof.
-  intros pre a post Hpre Ha Ht. unfold discover. cbn [snd].
-  assert (E : forall l1, exists l1', discover_from (pre ++ a :: post) l1 [] =
-                                     discover_from post l1' (map (selfcal_name (as_name a)) (as_targets a))).
-  { induction pre as [|b t IH]; intro l1.
-    - cbn [app discover_from]. rewrite Ha. cbn [String.eqb Ascii.eqb Bool.eqb andb]. rewrite andb_false_r.
-      exists l1. reflexivity.
-    - cbn [app discover_from].
-      assert (IH' := IH (fun c Hc => Hpre c (or_intror Hc))).
-      destruct (String.eqb l1 "" && String.eqb (as_type b) "sdp.cal"); [apply IH'|].
-      destruct (Hpre b (or_introl eq_refl)) as [Hb | Hb].
-      + apply String.eqb_neq in Hb. rewrite Hb. apply IH'.
-      + destruct (String.eqb (as_type b) "sdp.continuum_image"); [rewrite Hb; cbn [map]|]; apply IH'. }
-  destruct (E "") as [l1' E']. rewrite E'.
-  destruct (as_targets a) as [|x tl] eqn:Et; [contradiction Ht; reflexivity|]. cbn [map].
-  apply discover_from_l2_set.
+  intros pre a post x tl Hn Hpre Ha Ht. rewrite (discover_is_spec _ Hn). cbn [spec_discover snd]. unfold spec_l2.
+  destruct (filter_first productive_imager pre a post) as [r E].
+  - intros b Hb. apply not_productive. apply Hpre. exact Hb.
+  - unfold productive_imager. rewrite Ha, Ht. reflexivity.
+  - rewrite E. unfold targets_of. rewrite Ht. reflexivity.
+Qed.
+
+(* no imager with targets anywhere: no L2 stream *)
+Theorem discover_l2_none : forall l, (forall b, In b l -> as_name b <> "") ->
+  (forall b, In b l -> as_type b <> "sdp.continuum_image" \/ as_targets b = None \/ as_targets b = Some []) ->
+  snd (discover l) = [].
+Proof.
+  intros l Hn H. rewrite (discover_is_spec _ Hn). cbn [spec_discover snd]. unfold spec_l2.
+  rewrite filter_none; [reflexivity|]. intros b Hb. apply not_productive. apply H. exact Hb.
+Qed.
+
+(* L2 exists exactly when SOME archived imager has self-cal targets (not: when the first imager has) *)
+Theorem discover_l2_exists_iff : forall l, (forall b, In b l -> as_name b <> "") ->
+  (snd (discover l) <> [] <-> exists a, In a l /\ productive_imager a = true).
+Proof.
+  intros l Hn. rewrite (discover_is_spec _ Hn). cbn [spec_discover snd]. unfold spec_l2. split.
+  - intro H. destruct (filter productive_imager l) as [|a t] eqn:E; [contradiction H; reflexivity|].
+    assert (Hin : In a (filter productive_imager l)) by (rewrite E; left; reflexivity).
+    apply filter_In in Hin. exists a. exact Hin.
+  - intros [a [Hin Hp]]. destruct (filter productive_imager l) as [|b t] eqn:E.
+    + assert (Hf : In a (filter productive_imager l)) by (apply filter_In; split; assumption).
+      rewrite E in Hf. destruct Hf.
+    + assert (Hb : In b (filter productive_imager l)) by (rewrite E; left; reflexivity).
+      apply filter_In in Hb. pose proof (productive_targets _ (proj2 Hb)) as Hne.
+      destruct (targets_of b); [contradiction Hne; reflexivity|]. cbn [map]. discriminate.
+Qed.
+
+(* only the sdp.cal streams and the imagers with targets matter, and among them only their relative order: every
+   other stream (imagers without targets, other stream types, names telstate knows nothing about) can be dropped from
+   or inserted into sdp_archived_streams anywhere without changing the outcome *)
+Definition relevant_stream (a : astream) : bool := is_cal_stream a || productive_imager a.
+Lemma filter_filter_sub : forall (f g : astream -> bool) l,
+  (forall a, f a = true -> g a = true) -> filter f (filter g l) = filter f l.
+Proof.
+  intros f g l H. induction l as [|a t IH]; [reflexivity|]. cbn [filter].
+  destruct (g a) eqn:Eg; cbn [filter].
+  - rewrite IH. reflexivity.
+  - destruct (f a) eqn:Ef; [rewrite (H _ Ef) in Eg; discriminate | exact IH].
+Qed.
+Theorem discover_irrelevant_streams : forall l, (forall b, In b l -> as_name b <> "") ->
+  discover l = discover (filter relevant_stream l).
+Proof.
+  intros l Hn. rewrite (discover_is_spec _ Hn), discover_is_spec.
+  - unfold spec_discover, spec_l1, spec_l2, relevant_stream. rewrite !filter_filter_sub; [reflexivity| |].
+    + intros a H. rewrite H. apply orb_true_r.
+    + intros a H. rewrite H. reflexivity.
+  - intros b Hb. apply filter_In in Hb. apply Hn. exact (proj1 Hb).
+Qed.
+
+(* which aliases the data set offers: the registration of _register_standard_cal_streams = the documented rule *)
+Lemma register_one_names : forall tel alias n subs,
+  map cs_name (register_one tel alias n subs) = if attrs_ok tel n then [alias] else [].
+Proof.
+  intros tel alias n subs. unfold register_one, attrs_ok. destruct (find_tstream n tel) as [t|]; [|reflexivity].
+  destruct (ts_inputs t); [reflexivity|]. destruct (ts_spectral t); reflexivity.
+Qed.
+
+Theorem registered_aliases : forall tel archived, (forall n, In n archived -> n <> "") ->
+  map cs_name (registered tel archived) = spec_aliases tel archived.
+Proof.
+  intros tel archived Hn. unfold registered, spec_aliases.
+  assert (Hn' : forall a, In a (map (astream_of tel) archived) -> as_name a <> "").
+  { intros a Ha. apply in_map_iff in Ha. destruct Ha as [n [E Hin]]. subst a. unfold astream_of.
+    destruct (find_tstream n tel); cbn [as_name]; apply Hn; exact Hin. }
+  rewrite (discover_is_spec _ Hn'). cbn [spec_discover fst snd]. rewrite map_app, register_one_names. f_equal.
+  destruct (spec_l2 (map (astream_of tel) archived)) as [|h r]; [reflexivity|]. apply register_one_names.
+Qed.
+
+(* so, for a data set: a product of the default list whose correction sensors exist for every data input IS applied by
+   applycal='default' - in particular l2.GPHASE whenever some imager (not necessarily the first) has self-cal targets
+   whose substreams are registered and carry GPHASE solutions for the data inputs *)
+Theorem default_applies_available : forall streams inputs p,
+  In p default_cal_products -> product_ok (sensor_available streams) inputs p = true ->
+  exists l, applycal_products (RStr "default") streams inputs = Applied l /\ In p l.
+Proof.
+  intros streams inputs p Hin Hok. eexists. split; [apply applycal_default|].
+  apply dedup_in. apply filter_In. split; assumption.
 Qed.
